@@ -19,6 +19,7 @@ use mcvm::{Store, Vm};
 use mcx::{Bounds, Key, Scenario, Step};
 use multihash_codetable::Code;
 use num_traits::Zero;
+use fvm_shared::bigint as num_bigint_shim;
 use serde::{Deserialize, Serialize};
 use serde_json::json;
 use std::collections::BTreeMap;
@@ -404,7 +405,7 @@ impl Scenario for Withdrawals {
                     v.push(WAct::Withdraw { by, sel });
                 }
             }
-            for (q, e) in [(true, false), (false, false), (false, true)] {
+            for (q, e) in [(true, false), (true, true), (false, false), (false, true)] {
                 v.push(WAct::SetBeneficiary { quota_small: q, expires_soon: e });
             }
             v.push(WAct::ReportFault);
@@ -466,7 +467,11 @@ impl Scenario for Withdrawals {
                 let ben_bal0 = vm.balance(ben);
                 let r = withdraw(vm, who, w.m, &req);
                 let allowed = who == info0.owner.id().unwrap() || who == ben;
-                let quota_left = if ben != info0.owner.id().unwrap() { Some(info0.beneficiary_term.available(now)) } else { None };
+                // quota left per the model's own tally of what this beneficiary has been paid
+                let mq = TokenAmount::from_atto(m.quota.parse::<num_bigint_shim::BigInt>().unwrap());
+                let mu = TokenAmount::from_atto(m.used.parse::<num_bigint_shim::BigInt>().unwrap());
+                let model_left = if m.exp > now { std::cmp::max(&mq - &mu, TokenAmount::zero()) } else { TokenAmount::zero() };
+                let quota_left = if ben != info0.owner.id().unwrap() { Some(model_left) } else { None };
                 let expect_ok = allowed && !avail.is_negative() && quota_left.as_ref().map(|q| q.is_positive()).unwrap_or(true) && st0.early_terminations.is_empty();
                 if r.any_panicked() {
                     viol = Some(format!("panic: {}", r.tree()));
@@ -479,7 +484,11 @@ impl Scenario for Withdrawals {
                     }
                     let got: WithdrawBalanceReturn = r.ret.as_ref().unwrap().deserialize().unwrap();
                     if got.amount_withdrawn != want {
-                        viol = Some(format!("withdrawal returned {} but min(requested {req}, available {avail}, quota {quota_left:?}) = {want}", got.amount_withdrawn));
+                        viol = Some(format!("withdrawal returned {} but min(requested {req}, available {avail}, quota left by the model's tally {quota_left:?}) = {want}", got.amount_withdrawn));
+                    }
+                    if quota_left.is_some() {
+                        let nu = &mu + &got.amount_withdrawn;
+                        m.used = nu.atto().to_string();
                     }
                     let delta = vm.balance(ben) - &ben_bal0;
                     if delta != want && who != ben {
@@ -511,6 +520,19 @@ impl Scenario for Withdrawals {
                 let r1 = ext(vm, w.o, &id(w.m), &TokenAmount::zero(), MM::ChangeBeneficiary as u64, Some(&p));
                 let r2 = ext(vm, w.b, &id(w.m), &TokenAmount::zero(), MM::ChangeBeneficiary as u64, Some(&p));
                 outcome = if r1.ok() && r2.ok() { "accepted" } else { "rejected" };
+                // the current beneficiary must approve while its term is active: adopt whether the
+                // change took effect, but the tally of what was paid is only reset by a *different*
+                // beneficiary
+                let (_, i1) = Self::info(vm, w.m);
+                let nb = i1.beneficiary.id().unwrap();
+                if nb != m.beneficiary {
+                    m.used = "0".into();
+                }
+                if nb != m.beneficiary || i1.beneficiary_term.quota.atto().to_string() != m.quota || i1.beneficiary_term.expiration != m.exp {
+                    m.beneficiary = nb;
+                    m.quota = i1.beneficiary_term.quota.atto().to_string();
+                    m.exp = i1.beneficiary_term.expiration;
+                }
             }
             WAct::ReportFault => {
                 m.msgs_left -= 1;
@@ -573,10 +595,7 @@ impl Scenario for Withdrawals {
             }
             m.vest = Self::table(vm, &st1).into_iter().map(|(e, a)| (e, a.atto().to_string())).collect();
             let (_, info1) = Self::info(vm, w.m);
-            m.beneficiary = info1.beneficiary.id().unwrap();
-            m.quota = info1.beneficiary_term.quota.atto().to_string();
-            m.used = info1.beneficiary_term.used_quota.atto().to_string();
-            m.exp = info1.beneficiary_term.expiration;
+            let _ = info1;
         }
         let mut stp = Step::new(VS { snap: vm.snapshot(), m }, outcome);
         stp.agreed = 1;
